@@ -59,7 +59,7 @@ func (p SourceFilePos) String() string {
 type SourceFileSet struct {
 	Base     int           // base offset for the next file
 	Files    []*SourceFile // list of files in the order added to the set
-	LastFile *SourceFile   // cache of last file looked up
+	LastFile *SourceFile   // cache of last file added
 }
 
 // NewFileSet creates a new file set.
@@ -128,7 +128,9 @@ func (s *SourceFileSet) file(p Pos) *SourceFile {
 
 		// f.base <= int(p) by definition of searchFiles
 		if int(p) <= f.Base+f.Size {
-			s.LastFile = f // race is ok - s.last is only a cache
+			// s.LastFile is not updated here: a file set is shared by VMs
+			// running the same Bytecode concurrently and lookups must not
+			// write to it.
 			return f
 		}
 	}
